@@ -55,6 +55,28 @@ HARNESSES = [
          unwind=4, unwindset=["main.%d:129" % i for i in range(4)] + ["write_raw_image_file.0:4", "write_raw_image_file.1:4", "write_raw_image_file.2:4", "meta_get_blocks.0:16"],
          backends=["default", "kissat"],
          bound="one inode: all 128 bytes and the inode number symbolic; journal/project-quota/orphan inode numbers, 64bit feature, two reported (block, blockcnt) pairs symbolic; -a on/off per query"),
+    dict(name="marktables", src="marktables.c", funcs=["mark_table_blocks", "ext2fs_descriptor_block_loc2", "ext2fs_bg_has_super", "ext2fs_inode_table_loc", "ext2fs_bg_flags_test"],
+         extra_src=["lib/ext2fs/openfs.c", "lib/ext2fs/closefs.c", "lib/ext2fs/blknum.c"],
+         configs=[{"NDB": 3, "METABG": 1, "FIRST_META_BG": f} for f in (0, 1, 2, 3)] +
+                 [{"NDB": 3, "METABG": 0, "FIRST_META_BG": 0}, {"NDB": 3, "METABG": 1, "FIRST_META_BG": 1, "SPARSE": 0, "CSUM": 2},
+                  {"NDB": 3, "METABG": 1, "FIRST_META_BG": 1, "CSUM": 0, "MMP": 0}, {"NDB": 3, "METABG": 1, "FIRST_META_BG": 1, "OUTPUT_IS_BLK": 1}],
+         unwind=4, unwindset=["main.%d:36" % i for i in range(12)] + ["vf_log.0:36", "ext2fs_mark_block_bitmap_range2.0:9",
+                    "mark_table_blocks.0:8", "mark_table_blocks.1:8", "mark_table_blocks.2:8", "test_root.0:6"],   # same bound for every loop: robust against loop renumbering
+         backends=["kissat"],   # measured: kissat 6 s, minisat 70-150 s
+         bound="1 KiB blocks, 512-byte descriptors (2 per block), 2-3 descriptor blocks = 4-6 groups of 8192 blocks, 2 inode table "
+               "blocks per group; all feature words, s_first_meta_bg, MMP block, every descriptor's locations / flags / itable_unused symbolic"),
+    dict(name="qcow2_layout", src="qcow2_layout.c",
+         funcs=["output_qcow2_meta_data_blocks", "initialize_qcow2_image", "init_refcount", "update_refcount", "add_l2_item",
+                "flush_l2_cache", "sync_refcount", "write_header", "generic_write", "check_zero_block"],
+         extra_src=["lib/ext2fs/blknum.c"],
+         configs=[{"NBLK": 10, "ZERO": 0}], cbmc_flags=["--object-bits", "10"],
+         unwind=7,
+         unwindset=["main.%d:161" % i for i in range(8)] + ["output_qcow2_meta_data_blocks.0:14", "output_qcow2_meta_data_blocks.1:18",
+                    "put_l2_cache.0:6", "put_l2_cache.1:6", "init_l2_cache.0:6", "check_zero_block.0:34", "get_bits_from_size.0:7",
+                    "ref_be64.0:9", "ref_word_at.0:161", "write.0:161", "write.1:13", "write.2:4", "write.3:41", "io_channel_read_blk64.0:33", "flush_l2_cache.0:6"],
+         backends=["kissat", "default"],
+         bound="cluster = block = 32 bytes (4-entry L2 tables, 16-entry refcount blocks), 16 filesystem blocks, every subset imaged, "
+               "every subset all-zero; model file of 40 clusters"),
     dict(name="geom", src="geom.c", funcs=["initialize_qcow2_image", "init_refcount", "align_offset", "get_bits_from_size"],
          cut_statics=CUT, extra_src=["lib/ext2fs/blknum.c"],
          configs=[{"CB": cb} for cb in (10, 11, 12, 16)] + [{"CB": 10, "CHECK_CAPACITY": 1, "MAXLOG": 17}] + [{"CB": cb, "CHECK_CAPACITY": k} for k in (1, 2) for cb in (10, 11, 12, 16)],
